@@ -33,16 +33,17 @@ type Stmt struct {
 	Name string `json:"n,omitempty"` // assigned variable / output name
 	// tuple assignment "Names[0], Names[1], ... = Es[0], Es[1], ...": every right-hand side is
 	// evaluated before any variable is stored
-	Names []string `json:"names,omitempty"`
-	Es    []*Expr  `json:"es,omitempty"`
-	E     *Expr    `json:"e,omitempty"` // value, or left side of a condition
-	E2    *Expr    `json:"e2,omitempty"`
-	Init  *Stmt    `json:"init,omitempty"`
-	Post  *Stmt    `json:"post,omitempty"`
-	Body  []*Stmt  `json:"body,omitempty"`
-	Else  []*Stmt  `json:"else,omitempty"`
-	HasEl bool     `json:"has_else,omitempty"`
-	Cases []Case   `json:"cases,omitempty"`
+	Names  []string `json:"names,omitempty"`
+	Es     []*Expr  `json:"es,omitempty"`
+	E      *Expr    `json:"e,omitempty"` // value, or left side of a condition
+	E2     *Expr    `json:"e2,omitempty"`
+	Init   *Stmt    `json:"init,omitempty"`
+	Post   *Stmt    `json:"post,omitempty"`
+	Body   []*Stmt  `json:"body,omitempty"`
+	Else   []*Stmt  `json:"else,omitempty"`
+	HasEl  bool     `json:"has_else,omitempty"`
+	ElseIf bool     `json:"else_if,omitempty"` // print "else if" when the else part is a single if
+	Cases  []Case   `json:"cases,omitempty"`
 }
 
 // Func is a user function: parameters, optional local statements, one returned expression.
@@ -132,6 +133,13 @@ func (s *Stmt) print(sb *strings.Builder, ind string) {
 	case "if":
 		sb.WriteString(ind + "if " + s.E.src() + " == " + s.E2.src() + " {\n")
 		block(sb, s.Body, ind+"\t")
+		if s.HasEl && s.ElseIf && len(s.Else) == 1 && s.Else[0].Kind == "if" {
+			// "else if": printed as a chain (the evaluator sees the same tree)
+			var inner strings.Builder
+			s.Else[0].print(&inner, ind)
+			sb.WriteString(ind + "} else " + strings.TrimPrefix(inner.String(), ind))
+			return
+		}
 		if s.HasEl {
 			sb.WriteString(ind + "} else {\n")
 			block(sb, s.Else, ind+"\t")
@@ -594,6 +602,15 @@ func (g *gen) stmt(depth int) []*Stmt {
 		if g.rng.IntN(2) == 0 {
 			s.HasEl = true
 			s.Else = g.stmts(1+g.rng.IntN(2), depth-1)
+			if depth > 0 && g.rng.IntN(3) == 0 {
+				// an else-if chain
+				in := &Stmt{Kind: "if", E: &Expr{Kind: "var", Name: g.p.Vars[g.rng.IntN(len(g.p.Vars))]}, E2: g.lit(), Body: g.stmts(1, 0)}
+				if g.rng.IntN(2) == 0 {
+					in.HasEl = true
+					in.Else = g.stmts(1, 0)
+				}
+				s.Else, s.ElseIf = []*Stmt{in}, true
+			}
 		}
 		if g.inFor > 0 && g.rng.IntN(3) == 0 {
 			s.Body = append(s.Body, &Stmt{Kind: []string{"break", "continue"}[g.rng.IntN(2)]})
@@ -609,7 +626,24 @@ func (g *gen) stmt(depth int) []*Stmt {
 		g.inFor++
 		body := g.stmts(1+g.rng.IntN(2), depth-1)
 		g.inFor--
-		switch g.rng.IntN(3) {
+		switch g.rng.IntN(6) {
+		case 3: // for c = n; f == 0; c-- { if c == 1 { f = 1 }; body }   (counting down, post is a decrement)
+			f := g.newCounter()
+			fv := &Expr{Kind: "var", Name: f}
+			loop := &Stmt{Kind: "for", Init: &Stmt{Kind: "assign", Name: c, E: &Expr{Kind: "lit", Val: n}}, Post: &Stmt{Kind: "dec", Name: c},
+				E: fv, E2: &Expr{Kind: "lit", Val: 0}}
+			loop.Body = append([]*Stmt{{Kind: "if", E: cv, E2: &Expr{Kind: "lit", Val: 1}, Body: []*Stmt{{Kind: "assign", Name: f, E: &Expr{Kind: "lit", Val: 1}}}}}, body...)
+			return []*Stmt{{Kind: "assign", Name: f, E: &Expr{Kind: "lit", Val: 0}}, loop}
+		case 4: // c = n; d = n; for c == d { body; c++ }   (the condition compares two variables)
+			d := g.newCounter()
+			loop := &Stmt{Kind: "for", E: cv, E2: &Expr{Kind: "var", Name: d}}
+			loop.Body = append(append([]*Stmt{}, body...), &Stmt{Kind: "inc", Name: c})
+			// a continue in the body would skip the increment: put it first instead
+			loop.Body = append([]*Stmt{{Kind: "inc", Name: c}}, body...)
+			return []*Stmt{{Kind: "assign", Name: c, E: &Expr{Kind: "lit", Val: n}}, {Kind: "assign", Name: d, E: &Expr{Kind: "lit", Val: n}}, loop}
+		case 5: // for c = 0; c == 0; c++ { }   (one iteration of an empty body), then the drawn body once
+			loop := &Stmt{Kind: "for", Init: &Stmt{Kind: "assign", Name: c, E: &Expr{Kind: "lit", Val: 0}}, Post: &Stmt{Kind: "inc", Name: c}, E: cv, E2: &Expr{Kind: "lit", Val: 0}}
+			return append([]*Stmt{loop}, body...)
 		case 0: // c = 0; for { if c == n { break }; body; c++ }
 			loop := &Stmt{Kind: "for"}
 			loop.Body = append([]*Stmt{{Kind: "if", E: cv, E2: &Expr{Kind: "lit", Val: n}, Body: []*Stmt{{Kind: "break"}}}}, body...)
